@@ -560,7 +560,7 @@ func Spec() *mon.Spec {
 			{Name: "pool", Quick: 4000, Thorough: 80000, Run: runPool},
 			{Name: "complex-candidate", Quick: 4, Thorough: 16, Run: runComplex},
 		},
-		Floors: map[string]int{"distinct_nontrivial": 1500, "triples": 2000000, "ordered_pairs": 100000, "uncomparable_pairs": 20000, "eq_pairs_distinct_entries": 5000,
+		Floors: map[string]int{"distinct_nontrivial": 1000, "triples": 2000000, "ordered_pairs": 100000, "uncomparable_pairs": 20000, "eq_pairs_distinct_entries": 5000,
 			"number_pairs_mixed_representation": 20000, "pairs_in_float_unify_region": 3000, "pairs_via_builtins": 2500, "number_pairs_via_lt_le_eq": 500,
 			"pools_number-cluster": 150, "pools_lists": 150, "pools_maps": 150, "pools_strings": 150, "pools_mixed": 300, "complex_candidate_pairs": 1},
 	}
